@@ -2,7 +2,7 @@
 (* Scenario: unknown text-keyed members inserted into every extensible map of  *)
 (* a request, at every position, holding every kind of well-formed definite-   *)
 (* length CBOR value.  The request must decode exactly as without them.  C06.  *)
-EXTENDS Ctap, Gen, Faults
+EXTENDS Ctap, Gen, Faults, Dict
 
 CONSTANT Deep     \* BOOLEAN
 
@@ -45,6 +45,17 @@ N_zz == <<122, 122, 57>>     \* "zz9"
 UnknownKeys == {N_zz, N_transports, N_credBlob, N_minPinLength, N_credProps, N_hmacSecretMc, N_prf}
                \cup (IF TPP \in F THEN {} ELSE {N_thirdPartyPayment})
 
+\* names that ARE members -- of another map -- and the words of the source's dictionary: a name is
+\* unknown relative to the map it appears in ("url" is a member of the relying party, not of the user)
+StructSchemas == {sn \in SchemaNames : SchemaKind(sn) = "struct"}
+TextKeysOf(sn) == LET ms == Schema(sn, Features) IN
+                  UNION {{ms[i].key} \cup {ms[i].alias[j] : j \in 1..Len(ms[i].alias)} : i \in 1..Len(ms)}
+AllTextKeys == {k.b : k \in {x \in UNION {TextKeysOf(sn) : sn \in StructSchemas} : x.k = "text"}}
+\* what the map `sn` knows in configuration F (a member of a feature that is off is unknown)
+KnownIn(sn) == LET ms == Members(sn, F) IN
+               {k.b : k \in {x \in UNION {{ms[i].key} \cup {ms[i].alias[j] : j \in 1..Len(ms[i].alias)} : i \in 1..Len(ms)} : x.k = "text"}}
+ForeignKeys(sn) == (AllTextKeys \cup {w \in DictAscii : Len(w) <= 24}) \ KnownIn(sn)
+
 \* ----- base requests
 BaseSeq == <<[i |-> 1, c |-> 1, sv |-> ReqRich(1, F)], [i |-> 2, c |-> 2, sv |-> ReqFull(2, F)],
              [i |-> 3, c |-> 10, sv |-> ReqFull(10, F)], [i |-> 4, c |-> 1, sv |-> McReqMin],
@@ -80,7 +91,15 @@ Multi ==
                         CMap(<< <<CText(N_zz), Chain(5)>> >> \o At(BaseTree(b), m.p).m \o << <<CText(N_prf), CTag(BN(7), CArr(<<CNull>>))>>, <<CText(N_credBlob), CFloat(2, <<0, 0>>)>> >>)))]
             : m \in ExtMaps(b)} : b \in Bases}
 
-MC_Cases == ValueSweep \cup PositionSweep \cup Multi
+\* every foreign name in every extensible map: a text value, an integer, a map
+ForeignVals == {CText(AsciiPattern(1, 5)), CU(1), CMap(<< <<CU(1), CText(<<97>>)>> >>), CBytes(Pattern(2, 3))}
+ForeignSweep ==
+    UNION {UNION {{UCase(b, m, pos, k, u, "unknown-foreign-name") :
+                      u \in (IF Deep THEN ForeignVals ELSE {CText(AsciiPattern(1, 5)), CU(1)}), k \in ForeignKeys(m.s),
+                      pos \in (IF Deep THEN {0, Len(At(BaseTree(b), m.p).m)} ELSE {Len(At(BaseTree(b), m.p).m)})}
+                  : m \in ExtMaps(b)} : b \in (IF Deep THEN {BaseSeq[1], BaseSeq[2], BaseSeq[3]} ELSE {BaseSeq[1]})}
+
+MC_Cases == ValueSweep \cup PositionSweep \cup Multi \cup ForeignSweep
 
 \* the part of this corpus that C04 replays (the skipper must not crash, whatever it is fed)
 C04_Cases ==
